@@ -93,7 +93,8 @@ func HC16_reversal() {
 	// the ORIGINAL parameters differ from the current ones (as after an earlier bias): nothing may be taken from them
 	original := current
 	if rt.Bool("original-differs") {
-		original = vh.Params(vh.Alternatives("orig.", vh.AltIds[:A], crit), chose, crit, methodParams)
+		origCrit := append(append(model.Criteria{}, crit...), model.Criterion{Id: "dropped-earlier", Type: model.Gain})
+		original = vh.Params(vh.Alternatives("orig.", vh.AltIds[:A], origCrit), chose, origCrit, majority.MajorityHeuristicParams{Weights: vh.Weights("orig.w.", origCrit, 0, 4)})
 		rt.Reach("original-differs")
 	}
 	snapBefore := rt.Snapshot(current)
